@@ -1,6 +1,7 @@
 package main
 
 import (
+	"fmt"
 	"go/constant"
 	"go/token"
 	"go/types"
@@ -351,7 +352,7 @@ func c08order(c *Ctx, r *Result) {
 			}
 		}
 		if !found {
-			r.Errorf("C08.2: %s no longer applies the filters one by one", w.fn)
+			r.Shortfall(c, "C08.2", fmt.Sprintf("C08.2: %s no longer applies the filters one by one", w.fn))
 		}
 	}
 	r.Floor("C08.2", 7)
